@@ -244,13 +244,13 @@ def run(ctx: Ctx, rep: Report) -> None:
 
     err_resp = ctx.u.cls("puresnmp.exc:ErrorResponse")
     quiet = [q for q, _ in quietly_caught_classes(ctx)]
-    for vfn in {f.key: f for f, _, _ in verifiers}.values():
-        for node in own_nodes(vfn.node):
-            if not isinstance(node, ast.Call):
-                continue
+    for vfn in {f.key: ctx.inlined(f) for f, _, _ in verifiers}.values():  # helpers of the verifier are looked into
+        simple = [n for n in own_nodes(vfn.node) if isinstance(n, ast.stmt) and not isinstance(n, (ast.If, ast.For, ast.While, ast.Try, ast.With, ast.FunctionDef, ast.AsyncFunctionDef, ast.ClassDef))]
+        tests = [n.test for n in own_nodes(vfn.node) if isinstance(n, (ast.If, ast.While))] + [n.iter for n in own_nodes(vfn.node) if isinstance(n, ast.For)]
+        for node in simple + tests:
             forced = forces_pdu(ctx, vfn, node)
-            if not forced or any(isinstance(a, ast.Call) and forces_pdu(ctx, vfn, a) for a in ast.walk(node) if a is not node and isinstance(a, ast.Call)):
-                continue  # report the innermost forcing call only
+            if not forced:
+                continue
             guarded = False
             detail = f"forces {forced[0]}"
             for tr, part in enclosing_tries(node, vfn.node):
